@@ -29,6 +29,8 @@ def mk? (order : ℕ) (knots : Array K) (periodic : Int) (tol : K) : PyM (Basis 
     knots.getD j.toNat 0
   if p < 1 then .error .value
   else if n < 2 * p then .error .value
+  -- `if periodic >= 0: if n < p + k + 1: raise ValueError` (the comparison loop below then stays inside the list)
+  else if periodic ≥ 0 ∧ (n : Int) < (p : Int) + periodic + 1 then .error .value
   else
     let k := periodic
     let badPer := periodic ≥ 0 ∧ (List.range (p + k - 1).toNat).any (fun i =>
@@ -53,7 +55,9 @@ def continuity [FloorRing K] (b : Basis K) (tol : K) (knot : K) : PyM (Option In
   let wrapped : PyM K :=
     if b.periodic ≥ 0 then
       .ok (if knot < start ∨ knot > stop then pmod (knot - start) (stop - start) + start else knot)
-    else if knot < start ∨ stop < knot then .error .value
+    -- the range test uses the knot tolerance like the multiplicity count below (since the fix of findings
+    -- C12 `periodic-rounded-ghost-knots-out-of-range` / C14 `loft-periodic-rounded-knots-out-of-range`)
+    else if knot < start - tol ∨ stop + tol < knot then .error .value
     else .ok knot
   match wrapped with
   | .error e => .error e
